@@ -51,6 +51,10 @@ class UserError(Exception):
     pass
 
 
+class SetupFailed(Exception):
+    """an ordinary write (no fault injected, a value of the store's domain) did not complete"""
+
+
 # ------------------------------------------------------------------------------------------------------------------
 # a case and one execution of it
 # ------------------------------------------------------------------------------------------------------------------
@@ -126,7 +130,12 @@ def setup_dir(c, d):
             with open(target, "wb") as f:
                 f.write(helper_bytes(c["old"]))
         else:
-            do_write(c, target, c["old"])
+            try:
+                do_write(c, target, c["old"])
+            except Exception as e:      # noqa: BLE001
+                raise SetupFailed("writing the old value %s failed: %s: %s" % (sc.brief(c["old"]), type(e).__name__, e))
+        if not os.path.exists(target):
+            raise SetupFailed("writing the old value %s left no file" % sc.brief(c["old"]))
         os.utime(target, ns=(OLD_NS, OLD_NS))
         with open(target, "rb") as f:
             old_bytes = f.read()
@@ -451,21 +460,24 @@ def gen_cases(rng, n, big=False):
         encoding = rng.choice(sc.ENCODINGS) if store in sc.TEXT_MODE else None
         c = {"store": store, "encoding": encoding, "pathlib": rng.random() < 0.5, "mode": "wb"}
         failing = rng.random() < 0.25 and store != "BinaryFileStore"
-        c["new"] = gen_failing_value(rng, store, encoding) if failing else gen_value(rng, store, encoding, big and i < len(stores))
+        c["expect_fail"] = failing
+        c["new"] = gen_failing_value(rng, store, encoding) if failing else gen_value(rng, store, encoding, big and i >= n - len(stores))
         c["old"] = MISSING if rng.random() < 0.3 else gen_value(rng, store, encoding)
         c["next"] = gen_value(rng, store, encoding)
         c["stale"] = None if rng.random() < 0.6 else bytes(rng.randrange(256) for _ in range(rng.choice([0, 1, 9])))
         if store == "staged_write" and rng.random() < 0.15:
             c["mode"] = rng.choice(["rb", "ab", "r", "xb"])          # no "w": ValueError before anything
+            c["expect_fail"] = True
         if store == "staged_write_path" and rng.random() < 0.12:
             c["new"] = {"chunks": [], "no_file": True}
             c["stale"] = None
+            c["expect_fail"] = True
         cases.append(c)
     # the open() that fails AFTER creating the file
     cases.append({"store": "TextFileStore", "encoding": "no-such-codec", "pathlib": False, "mode": "wb", "new": "abc",
-                  "old": MISSING, "next": "x", "stale": None, "next_fails": True})
+                  "old": MISSING, "next": "x", "stale": None, "next_fails": True, "expect_fail": True})
     cases.append({"store": "JsonFileStore", "encoding": "no-such-codec", "pathlib": True, "mode": "wb", "new": [1],
-                  "old": MISSING, "next": [2], "stale": b"junk", "next_fails": True})
+                  "old": MISSING, "next": [2], "stale": b"junk", "next_fails": True, "expect_fail": True})
     return cases
 
 
@@ -482,9 +494,17 @@ def pick_ks(rng, n):
 
 def explore_case(ctx, c, rng, stats, lines, pending, violations, subprocess_budget):
     """Runs the case's reference run and its fault sweep; queues the model comparisons in `lines`/`pending`."""
-    ref = run_once(c, {})
+    try:
+        ref = run_once(c, {})
+    except SetupFailed as e:
+        violations.append({"property": "C11", "what": str(e), "case": case_to_json(c), "faults": {}, "observed": "setup"})
+        return
     c["new_completes"] = ref["out"] == "ok"
     new_bytes = ref["target"] if ref["out"] == "ok" else None
+    if ref["out"] != "ok" and not c.get("expect_fail"):
+        violations.append({"property": "C11", "what": "a write of a valid value with no fault injected did not complete: %s (%s)" % (
+            ref["out"], ref["natural"]), "case": case_to_json(c), "faults": {}, "observed": canon_real(ref)})
+        return
     no_model = c["new"].get("no_file") if isinstance(c["new"], dict) else False
     body, natural, chunk_bytes = body_of(c, ref)
     if ref["out"] == "ok" and b"".join(chunk_bytes) != ref["target"]:
@@ -573,7 +593,60 @@ def explore(ctx, n_cases=None, seed_shift=0):
                    "os._exit before, os._exit after partial effect}; indices sampled (first/last 4 + 14) only when a write "
                    "has more than 24 operations; + double faults; + os._exit in a fresh interpreter",
            "samples": [json.dumps(case_to_json(c))[:300] for c in cases[:2]]}
-    return {"violations": violations[:3], "disagreements": disagreements[:3], "coverage": cov}
+    try:
+        violations = [shrink(v) for v in violations[:3]]
+    finally:
+        sc.cleanup_scratch()
+    return {"violations": violations, "disagreements": disagreements[:3], "coverage": cov}
+
+
+SMALL = {"TextFileStore": "a", "BinaryFileStore": b"a", "JsonFileStore": [1], "PickleFileStore": 1, "TouchFileStore": None,
+         "staged_write": {"chunks": [b"a"]}, "staged_write_path": {"chunks": [b"a"]}}
+
+
+def violates(c, faults):
+    """does the property monitor fire on this case/fault schedule? (None = no)"""
+    c = dict(c)
+    try:
+        try:
+            ref = run_once(c, {})
+        except SetupFailed as e:
+            return str(e)
+        c["new_completes"] = ref["out"] == "ok"
+        new_bytes = ref["target"] if ref["out"] == "ok" else None
+        if ref["out"] != "ok" and not c.get("expect_fail"):
+            return "a write of a valid value with no fault injected did not complete: %s" % ref["out"]
+        dies = any(f[0] == "d" for f in faults.values())
+        obs = ref if not faults else run_once(c, faults, follow_up_after_kill if dies else None)
+        found = monitor(c, faults, obs, new_bytes)
+        return "; ".join(found) + " | " + canon_real(obs) if found else None
+    except Exception:       # noqa: BLE001 - a shrink candidate that cannot even be set up is simply not taken
+        return None
+
+
+def shrink(v):
+    """greedy: smaller value, no old value, no stale file, str path, default encoding, earlier fault index"""
+    c = case_from_json(v["case"])
+    faults = {int(k): tuple(f) for k, f in v["faults"].items()}
+    if violates(c, faults) is None:
+        return v
+    for key, small in (("new", SMALL.get(c["store"])), ("old", MISSING), ("stale", None), ("pathlib", False), ("encoding", None),
+                       ("next", SMALL.get(c["store"]))):
+        if c.get(key) == small or (key == "new" and c.get("expect_fail")):
+            continue
+        c2 = dict(c)
+        c2[key] = small
+        cands = [faults]
+        if key == "new" and len(faults) == 1:
+            (k, f), = faults.items()
+            cands = [{k2: f} for k2 in range(0, 6)]
+        for f2 in cands:
+            if violates(c2, f2) is not None:
+                c, faults = c2, f2
+                break
+    what = violates(c, faults)
+    return {"property": "C11", "what": what.split(" | ")[0], "case": case_to_json(c),
+            "faults": {str(k): list(f) for k, f in faults.items()}, "observed": what.split(" | ")[-1]}
 
 
 def search(ctx, broken):
@@ -597,9 +670,14 @@ def replay(ctx, payload):
     c = case_from_json(w["case"])
     faults = {int(k): tuple(f) for k, f in w.get("faults", {}).items()}
     try:
-        ref = run_once(c, {})
+        try:
+            ref = run_once(c, {})
+        except SetupFailed as e:
+            return str(e)
         c["new_completes"] = ref["out"] == "ok"
         new_bytes = ref["target"] if ref["out"] == "ok" else None
+        if ref["out"] != "ok" and not c.get("expect_fail"):
+            return "a write of a valid value with no fault injected did not complete: %s" % ref["out"]
         dies = any(f[0] == "d" for f in faults.values())
         obs = ref if not faults else run_once(c, faults, follow_up_after_kill if dies else None)
         found = monitor(c, faults, obs, new_bytes)
